@@ -177,6 +177,9 @@ BREAKING += [
 BENIGN = [
     {"id": "B-unparse-roundtrip-whole-tree", "transform": "unparse_all"},
     {"id": "B-rename-all-locals", "transform": "rename_locals", "suffix": "_r"},
+    {"id": "B-flip-all-comparisons", "transform": "flip_compares"},
+    {"id": "B-swap-all-if-arms", "transform": "swap_if_arms"},
+    {"id": "B-swap-all-conditional-expressions", "transform": "swap_ifexp"},
     {"id": "B-alif-rebinding-flag", "edits": [E("neural/neurons/linear.py", "        if adapt or (adapt is None and self.training):", "        adapt = adapt or (adapt is None and self.training)\n        if adapt:", 2)]},
     {"id": "B-helper-commuted", "edits": [E(INFRA, "return (pointer - int(offset)) % size", "return (-int(offset) + pointer) % size")]},
     {"id": "B-push-temp", "edits": [E(INFRA, "        self.write(obs, offset=0, inplace=inplace)\n        self.incr(1)", "        zero = 0\n        self.write(obs, offset=0, inplace=inplace)\n        _ = self.incr(1)")]},
